@@ -44,7 +44,12 @@ func NewArray(
 			TypePanic(NewScope(), 0, "dimension", Fixnum(dimensions[i]),
 				fmt.Sprintf("positive fixnum less than %d", ArrayMaxDimension))
 		}
-		size *= dimensions[i]
+		// The dimensions are each within the limit. So must their product,
+		// the number of elements, be.
+		if size *= dimensions[i]; ArrayMaxDimension < size {
+			TypePanic(NewScope(), 0, "dimensions", Fixnum(size),
+				fmt.Sprintf("a total size of not more than %d", ArrayMaxDimension))
+		}
 	}
 	a.elements = make([]Object, size)
 	if initContent != nil {
